@@ -4,7 +4,7 @@ CONSTANTS
   PoolIds = {"1"}
   Creator = "u1"
   MaxLen = 4
-  Alphabet = "ledger"
+  Alphabet = "batch"
   Emit = FALSE
 INVARIANTS InvHolds
 PROPERTIES StepOK
